@@ -1,4 +1,749 @@
 import JunoModel.C11.Model
+import JunoModel.C11.ModelSpec
 import JunoModel.C11.ModelGo
+/-! C11 — helper lemmas for Props.lean. -/
 namespace Juno.C11
+
+/-- the answer and the invocations of a request value, as a function of its stage -/
+def entrySpec (cfg : Config) (env : Env) (c : Int) : Stage → Option Response × List Call
+  | .undecodable => (some (errResponse c (some opaqueData)), [])
+  | .insane e req =>
+    (some { error := some (mkErr InvalidRequest (some (.str e.msg))),
+            id := if e = .id then .null else idJson req.id }, [])
+  | .unknownMethod req =>
+    (if cfg.silentNotificationErrors ∧ req.id.isNone then none
+     else some { error := some (mkErr MethodNotFound none), id := idJson req.id }, [])
+  | .badParams req _ e =>
+    (if cfg.silentNotificationErrors ∧ req.id.isNone then none
+     else some { error := some (mkErr InvalidParams (some e.data)), id := idJson req.id }, [])
+  | .run req m args =>
+    (req.id.map (handlerResponse cfg (env.call m.name args)), [(m.name, args)])
+
+theorem handleEntry_eq (cfg : Config) (env : Env) (tbl : Table) (c : Int) (j : Json) :
+    handleEntry cfg env tbl c j = entrySpec cfg env c (stageOf env tbl j) := by
+  unfold handleEntry stageOf
+  cases hd : decodeRequest j with
+  | none => simp [entrySpec]
+  | some req =>
+    simp only
+    unfold handleRequest
+    cases hs : isSane req with
+    | some e =>
+      simp only [finishRequest, entrySpec, errResponse]
+      by_cases he : e = .id <;> simp [he]
+    | none =>
+      simp only
+      cases hl : lookupMethod tbl req.method with
+      | none =>
+        simp only [entrySpec, Option.isNone_iff_eq_none]
+        by_cases h : cfg.silentNotificationErrors = true ∧ req.id = none <;> simp [h, finishRequest]
+      | some m =>
+        simp only
+        cases hb : buildArguments env req.params m with
+        | error e =>
+          simp only [entrySpec, Option.isNone_iff_eq_none]
+          by_cases h : cfg.silentNotificationErrors = true ∧ req.id = none <;> simp [h, finishRequest]
+        | ok args =>
+          simp only [entrySpec]
+          cases hid : req.id with
+          | none => simp [finishRequest]
+          | some id =>
+            simp only [Option.map, handlerResponse]
+            cases he : (env.call m.name args).error <;> simp [finishRequest]
+            cases (env.call m.name args).result <;> rfl
+
+/-! ### marshalled shape of responses -/
+
+theorem toJson_error (e : RpcError) (i : Json) :
+    ({ error := some e, id := i } : Response).toJson =
+      .obj [("jsonrpc", .str "2.0"), ("error", e.toJson), ("id", i)] := by
+  simp [Response.toJson]
+
+theorem toJson_result (v : Json) (i : Json) :
+    ({ result := some v, id := i } : Response).toJson =
+      .obj [("jsonrpc", .str "2.0"), ("result", v), ("id", i)] := by
+  simp [Response.toJson]
+
+theorem mkErr_code (code : Int) (d : Option Json)
+    (h : code = -32700 ∨ code = -32600 ∨ code = -32601 ∨ code = -32602) :
+    ∃ msg, mkErr code d = { code := code, message := msg, data := d } := by
+  rcases h with h | h | h | h <;> subst h <;> simp [mkErr, InvalidJSON, InvalidRequest, MethodNotFound, InvalidParams]
+
+theorem errResponse_isError (code : Int) (d : Option Json)
+    (h : code = -32700 ∨ code = -32600 ∨ code = -32601 ∨ code = -32602) :
+    IsErrorResponse code .null (errResponse code d).toJson := by
+  obtain ⟨msg, hm⟩ := mkErr_code code d h
+  refine ⟨msg, d, ?_⟩
+  simp [errResponse, hm, Response.toJson]
+
+theorem IsErrorResponse.isResponse {code : Int} {id j : Json} (h : IsErrorResponse code id j) :
+    IsResponse id j := by
+  obtain ⟨msg, data, rfl⟩ := h
+  exact IsResponse.error _
+
+/-- the handler's outcome is a well-formed response unless it returned `(nil, nil)` and the
+server drops nil results -/
+theorem handlerResponse_wellformed (cfg : Config) (out : HResult) (id : Json)
+    (h : cfg.nullForNilResult = true ∨ out.result.isSome = true ∨ out.error.isSome = true) :
+    IsResponse id (handlerResponse cfg out id).toJson := by
+  unfold handlerResponse
+  cases he : out.error with
+  | some e => simp only [toJson_error]; exact IsResponse.error e
+  | none =>
+    cases hr : out.result with
+    | some v => simp only [toJson_result]; exact IsResponse.result v
+    | none =>
+      rcases h with h | h | h
+      · simp only [h, if_true, toJson_result]; exact IsResponse.result _
+      · simp [hr] at h
+      · simp [he] at h
+
+theorem isResponse_members {id : Json} {kvs : List (String × Json)} (h : IsResponse id (.obj kvs)) :
+    kvs.length = 3 := by
+  cases h <;> rfl
+
+/-! ### properties of `entrySpec` -/
+
+theorem entrySpec_noReply (cfg : Config) (env : Env) (c : Int) (s : Stage) :
+    (entrySpec cfg env c s).1 = none ↔ s.noReply cfg = true := by
+  cases s with
+  | undecodable => simp [entrySpec, Stage.noReply]
+  | insane e req => simp [entrySpec, Stage.noReply]
+  | unknownMethod req =>
+    simp only [entrySpec, Stage.noReply, Option.isNone_iff_eq_none, Bool.and_eq_true]
+    by_cases h : cfg.silentNotificationErrors = true ∧ req.id = none <;> simp [h]
+  | badParams req m e =>
+    simp only [entrySpec, Stage.noReply, Option.isNone_iff_eq_none, Bool.and_eq_true]
+    by_cases h : cfg.silentNotificationErrors = true ∧ req.id = none <;> simp [h]
+  | run req m args =>
+    simp only [entrySpec, Stage.noReply]
+    cases req.id <;> simp
+
+theorem entrySpec_log (cfg : Config) (env : Env) (c : Int) (s : Stage) :
+    (entrySpec cfg env c s).2 = s.call?.toList := by
+  cases s <;> simp [entrySpec, Stage.call?]
+
+/-- the id of a response is the id of the request value it answers -/
+theorem entrySpec_id (cfg : Config) (env : Env) (c : Int) (s : Stage) (r : Response)
+    (h : (entrySpec cfg env c s).1 = some r) : r.id = s.id := by
+  cases s with
+  | undecodable => simp [entrySpec, errResponse] at h; subst h; rfl
+  | insane e req => simp [entrySpec] at h; subst h; rfl
+  | unknownMethod req =>
+    simp only [entrySpec] at h
+    split at h <;> simp at h
+    subst h; rfl
+  | badParams req m e =>
+    simp only [entrySpec] at h
+    split at h <;> simp at h
+    subst h; rfl
+  | run req m args =>
+    simp only [entrySpec] at h
+    cases hid : req.id with
+    | none => simp [hid] at h
+    | some id =>
+      simp [hid] at h
+      subst h
+      simp only [Stage.id, hid, idJson, Option.getD]
+      unfold handlerResponse
+      cases (env.call m.name args).error <;> rfl
+
+theorem entrySpec_wellformed (cfg : Config) (env : Env) (c : Int) (s : Stage) (r : Response)
+    (hc : c = -32700 ∨ c = -32600) (hok : ResultsOk cfg env)
+    (h : (entrySpec cfg env c s).1 = some r) : IsResponse s.id r.toJson := by
+  cases s with
+  | undecodable =>
+    simp [entrySpec] at h; subst h
+    exact (errResponse_isError c _ (by rcases hc with h | h <;> simp [h])).isResponse
+  | insane e req =>
+    simp [entrySpec] at h; subst h
+    simp only [toJson_error]; exact IsResponse.error _
+  | unknownMethod req =>
+    simp only [entrySpec] at h
+    split at h <;> simp at h
+    subst h; simp only [toJson_error]; exact IsResponse.error _
+  | badParams req m e =>
+    simp only [entrySpec] at h
+    split at h <;> simp at h
+    subst h; simp only [toJson_error]; exact IsResponse.error _
+  | run req m args =>
+    simp only [entrySpec] at h
+    cases hid : req.id with
+    | none => simp [hid] at h
+    | some id =>
+      simp [hid] at h
+      subst h
+      simp only [Stage.id, hid, idJson, Option.getD]
+      apply handlerResponse_wellformed
+      rcases hok with h | h
+      · exact Or.inl h
+      · exact Or.inr (h m.name args)
+
+/-- the error code is the one of the first failing stage -/
+theorem entrySpec_code (cfg : Config) (env : Env) (c : Int) (s : Stage) (r : Response) (code : Int)
+    (hc : c = -32700 ∨ c = -32600)
+    (hcode : s.errorCode? c = some code)
+    (h : (entrySpec cfg env c s).1 = some r) : IsErrorResponse code s.id r.toJson := by
+  cases s with
+  | undecodable =>
+    simp [entrySpec] at h; subst h
+    simp [Stage.errorCode?] at hcode; subst hcode
+    exact errResponse_isError c _ (by rcases hc with h | h <;> simp [h])
+  | insane e req =>
+    simp [entrySpec] at h; subst h
+    simp [Stage.errorCode?] at hcode; subst hcode
+    obtain ⟨msg, hm⟩ := mkErr_code (-32600) (some (.str e.msg)) (by simp)
+    refine ⟨msg, some (.str e.msg), ?_⟩
+    simp only [toJson_error, Stage.id]
+    rw [show InvalidRequest = (-32600 : Int) from rfl, hm]
+  | unknownMethod req =>
+    simp only [entrySpec] at h
+    split at h <;> simp at h
+    subst h
+    simp [Stage.errorCode?] at hcode; subst hcode
+    obtain ⟨msg, hm⟩ := mkErr_code (-32601) none (by simp)
+    refine ⟨msg, none, ?_⟩
+    simp only [toJson_error, Stage.id]
+    rw [show MethodNotFound = (-32601 : Int) from rfl, hm]
+  | badParams req m e =>
+    simp only [entrySpec] at h
+    split at h <;> simp at h
+    subst h
+    simp [Stage.errorCode?] at hcode; subst hcode
+    obtain ⟨msg, hm⟩ := mkErr_code (-32602) (some e.data) (by simp)
+    refine ⟨msg, some e.data, ?_⟩
+    simp only [toJson_error, Stage.id]
+    rw [show InvalidParams = (-32602 : Int) from rfl, hm]
+  | run req m args => simp [Stage.errorCode?] at hcode
+
+/-! ### list lemmas -/
+
+theorem forall₂_filter_filterMap {α β : Type} (f : α → Option β) (l : List α) :
+    Forall₂ (fun a b => f a = some b) (l.filter (fun a => (f a).isSome)) (l.filterMap f) := by
+  induction l with
+  | nil => exact Forall₂.nil
+  | cons a l ih =>
+    cases h : f a with
+    | none => simpa [List.filter, List.filterMap, h] using ih
+    | some b =>
+      simp only [List.filter, List.filterMap, h, Option.isSome_some]
+      exact Forall₂.cons h ih
+
+theorem forall₂_map_right {α β γ : Type} {R : α → β → Prop} (g : β → γ) {l1 : List α} {l2 : List β}
+    (h : Forall₂ R l1 l2) : Forall₂ (fun a c => ∃ b, R a b ∧ c = g b) l1 (l2.map g) := by
+  induction h with
+  | nil => exact Forall₂.nil
+  | cons hab _ ih => exact Forall₂.cons ⟨_, hab, rfl⟩ ih
+
+theorem forall₂_imp {α β : Type} {R S : α → β → Prop} (hRS : ∀ a b, R a b → S a b)
+    {l1 : List α} {l2 : List β} (h : Forall₂ R l1 l2) : Forall₂ S l1 l2 := by
+  induction h with
+  | nil => exact Forall₂.nil
+  | cons hab _ ih => exact Forall₂.cons (hRS _ _ hab) ih
+
+theorem filterMap_eq_flatMap_toList {α β : Type} (f : α → Option β) (l : List α) :
+    l.filterMap f = l.flatMap (fun a => (f a).toList) := by
+  induction l with
+  | nil => rfl
+  | cons a l ih => cases h : f a <;> simp [List.filterMap, h, ih]
+
+/-- the order in which a worker pool finishes is a permutation: a pairing survives it -/
+theorem forall₂_perm_right {α β : Type} {R : α → β → Prop} {l1 : List α} {l2 l2' : List β}
+    (h : Forall₂ R l1 l2) (hp : l2.Perm l2') :
+    ∃ l1', l1.Perm l1' ∧ Forall₂ R l1' l2' := by
+  induction hp generalizing l1 with
+  | nil => exact ⟨l1, List.Perm.refl _, h⟩
+  | cons x _ ih =>
+    cases h with
+    | cons hab ht =>
+      obtain ⟨l1', hp', hf'⟩ := ih ht
+      exact ⟨_ :: l1', List.Perm.cons _ hp', Forall₂.cons hab hf'⟩
+  | swap x y l =>
+    cases h with
+    | cons hab ht =>
+      cases ht with
+      | cons hab' ht' =>
+        exact ⟨_, List.Perm.swap _ _ _, Forall₂.cons hab' (Forall₂.cons hab ht')⟩
+  | trans _ _ ih1 ih2 =>
+    obtain ⟨m1, hp1, hf1⟩ := ih1 h
+    obtain ⟨m2, hp2, hf2⟩ := ih2 hf1
+    exact ⟨m2, hp1.trans hp2, hf2⟩
+
+/-! ### HandleReader -/
+
+theorem batch?_some {cfg : Config} {inp : Input} {xs : List Json} (h : inp.batch? cfg = some xs) :
+    isBatch cfg inp = true ∧ cfg.batchDisabled = false ∧ inp.parsed = some (.arr xs) ∧ xs ≠ [] := by
+  unfold Input.batch? at h
+  split at h
+  · rename_i hc
+    simp only [Bool.and_eq_true, Bool.not_eq_true'] at hc
+    split at h
+    · rename_i x xs' hp
+      simp at h; subst h
+      exact ⟨hc.1, hc.2, hp, by simp⟩
+    · simp at h
+  · simp at h
+
+theorem handleInput_batch (cfg : Config) (env : Env) (tbl : Table) (inp : Input) (xs : List Json)
+    (h : inp.batch? cfg = some xs) :
+    handleInput cfg env tbl inp =
+      { body := if (batchResponses cfg env tbl xs).isEmpty then none
+                else some (.arr ((batchResponses cfg env tbl xs).map Response.toJson)),
+        log := batchLog cfg env tbl xs } := by
+  obtain ⟨hb, hd, hp, hne⟩ := batch?_some h
+  cases xs with
+  | nil => exact absurd rfl hne
+  | cons x xs => simp [handleInput, hb, hd, hp]
+
+theorem handleInput_single (cfg : Config) (env : Env) (tbl : Table) (inp : Input) (j : Json)
+    (h : inp.single? cfg = some j) :
+    handleInput cfg env tbl inp =
+      { body := (handleEntry cfg env tbl InvalidJSON j).1.map Response.toJson,
+        log := (handleEntry cfg env tbl InvalidJSON j).2 } := by
+  unfold Input.single? at h
+  split at h
+  · simp at h
+  · rename_i hb
+    simp only [Bool.not_eq_true] at hb
+    simp [handleInput, hb, h]
+
+theorem entries_none {cfg : Config} {inp : Input} (h : inp.entries cfg = none) :
+    inp.batch? cfg = none ∧ inp.single? cfg = none := by
+  unfold Input.entries at h
+  cases hb : inp.batch? cfg with
+  | some xs => simp [hb] at h
+  | none =>
+    simp [hb] at h
+    exact ⟨rfl, h⟩
+
+/-- an input that is refused as a whole gets one error object with id null and code -32700
+(not JSON / not a request list) or -32600 (empty batch, batches disabled); no handler runs -/
+theorem handleInput_refused (cfg : Config) (env : Env) (tbl : Table) (inp : Input)
+    (h : inp.entries cfg = none) :
+    ∃ code j, (code = -32700 ∨ code = -32600) ∧
+      handleInput cfg env tbl inp = { body := some j, log := [] } ∧ IsErrorResponse code .null j := by
+  obtain ⟨hb, hs⟩ := entries_none h
+  have e700 : ∀ d, IsErrorResponse (-32700) .null (errResponse InvalidJSON d).toJson :=
+    fun d => errResponse_isError (-32700) d (by simp)
+  have e600 : ∀ d, IsErrorResponse (-32600) .null (errResponse InvalidRequest d).toJson :=
+    fun d => errResponse_isError (-32600) d (by simp)
+  unfold Input.single? at hs
+  unfold Input.batch? at hb
+  cases hB : isBatch cfg inp with
+  | false =>
+    simp [hB] at hs
+    exact ⟨-32700, _, Or.inl rfl, by simp [handleInput, hB, hs], e700 (some opaqueData)⟩
+  | true =>
+    cases hD : cfg.batchDisabled with
+    | true => exact ⟨-32600, _, Or.inr rfl, by simp [handleInput, hB, hD], e600 (some (.str "batch requests are disabled"))⟩
+    | false =>
+      simp [hB, hD] at hb
+      cases hp : inp.parsed with
+      | none => exact ⟨-32700, _, Or.inl rfl, by simp [handleInput, hB, hD, hp], e700 (some opaqueData)⟩
+      | some v =>
+        cases v with
+        | arr ys =>
+          cases ys with
+          | nil => exact ⟨-32600, _, Or.inr rfl, by simp [handleInput, hB, hD, hp], e600 (some (.str "empty batch"))⟩
+          | cons y ys => simp [hp] at hb
+        | null => exact ⟨-32700, _, Or.inl rfl, by simp [handleInput, hB, hD, hp], e700 (some opaqueData)⟩
+        | bool b => exact ⟨-32700, _, Or.inl rfl, by simp [handleInput, hB, hD, hp], e700 (some opaqueData)⟩
+        | num t => exact ⟨-32700, _, Or.inl rfl, by simp [handleInput, hB, hD, hp], e700 (some opaqueData)⟩
+        | str t => exact ⟨-32700, _, Or.inl rfl, by simp [handleInput, hB, hD, hp], e700 (some opaqueData)⟩
+        | obj kvs => exact ⟨-32700, _, Or.inl rfl, by simp [handleInput, hB, hD, hp], e700 (some opaqueData)⟩
+
+/-- `r` is the marshalled answer of the server to request value `e` -/
+def Answers (cfg : Config) (env : Env) (tbl : Table) (c : Int) (e : Json) (r : Json) : Prop :=
+  ∃ resp, (entrySpec cfg env c (stageOf env tbl e)).1 = some resp ∧ r = resp.toJson
+
+theorem entries_cases {cfg : Config} {inp : Input} {es : List Json} (h : inp.entries cfg = some es) :
+    (inp.batch? cfg = some es) ∨ (inp.batch? cfg = none ∧ ∃ j, inp.single? cfg = some j ∧ es = [j]) := by
+  unfold Input.entries at h
+  cases hb : inp.batch? cfg with
+  | some xs => simp [hb] at h; exact Or.inl (by rw [h])
+  | none =>
+    simp [hb] at h
+    obtain ⟨j, hj, rfl⟩ := h
+    exact Or.inr ⟨rfl, j, hj, rfl⟩
+
+/-- the pairing of requests that expect a reply with the response objects, in request order -/
+theorem responses_forall₂ (cfg : Config) (env : Env) (tbl : Table) (inp : Input) (es : List Json)
+    (h : inp.entries cfg = some es) :
+    Forall₂ (Answers cfg env tbl (inp.decodeFailCode cfg))
+      (es.filter (fun e => !(stageOf env tbl e).noReply cfg))
+      ((handleInput cfg env tbl inp).responses (inp.batch? cfg).isSome) := by
+  rcases entries_cases h with hb | ⟨hb, j, hj, rfl⟩
+  · -- batch
+    rw [handleInput_batch cfg env tbl inp es hb]
+    have hc : inp.decodeFailCode cfg = InvalidRequest := by simp [Input.decodeFailCode, hb, InvalidRequest]
+    rw [hc]
+    let f : Json → Option Response := fun e => (handleEntry cfg env tbl InvalidRequest e).1
+    have hrs : batchResponses cfg env tbl es = es.filterMap f := by
+      simp [batchResponses, batchEntries, List.filterMap_map, f, Function.comp_def]
+    have hfilter : es.filter (fun e => !(stageOf env tbl e).noReply cfg) = es.filter (fun e => (f e).isSome) := by
+      apply List.filter_congr
+      intro e _
+      simp only [f, handleEntry_eq]
+      cases hn : (entrySpec cfg env InvalidRequest (stageOf env tbl e)).1 with
+      | none => simp [(entrySpec_noReply cfg env InvalidRequest _).mp hn]
+      | some r =>
+        have : ¬ ((stageOf env tbl e).noReply cfg = true) := by
+          intro hh
+          rw [(entrySpec_noReply cfg env InvalidRequest _).mpr hh] at hn
+          cases hn
+        simp [this]
+    rw [hfilter]
+    have base := forall₂_map_right Response.toJson (forall₂_filter_filterMap f es)
+    have goal_eq : Forall₂ (Answers cfg env tbl InvalidRequest) (es.filter (fun e => (f e).isSome))
+        ((es.filterMap f).map Response.toJson) := by
+      refine forall₂_imp ?_ base
+      rintro a c ⟨b, hab, rfl⟩
+      exact ⟨b, by simpa [f, handleEntry_eq] using hab, rfl⟩
+    simp only [Output.responses, hb, Option.isSome_some, if_true, hrs]
+    cases hfm : es.filterMap f with
+    | nil => simpa [hfm] using goal_eq
+    | cons a l => simpa [hfm] using goal_eq
+  · -- single request
+    rw [handleInput_single cfg env tbl inp j hj]
+    have hc : inp.decodeFailCode cfg = InvalidJSON := by simp [Input.decodeFailCode, hb, InvalidJSON]
+    rw [hc, handleEntry_eq, hb]
+    cases hn : (entrySpec cfg env InvalidJSON (stageOf env tbl j)).1 with
+    | none =>
+      have := (entrySpec_noReply cfg env InvalidJSON _).mp hn
+      simp only [Output.responses, List.filter, this, Option.map_none, Bool.not_true]
+      exact Forall₂.nil
+    | some r =>
+      have : ¬ ((stageOf env tbl j).noReply cfg = true) := by
+        intro hh
+        rw [(entrySpec_noReply cfg env InvalidJSON _).mpr hh] at hn
+        cases hn
+      simp only [Output.responses, Option.map_some, Option.isSome_none, Bool.false_eq_true, if_false,
+        List.filter, this, Bool.not_false]
+      exact Forall₂.cons ⟨r, hn, rfl⟩ Forall₂.nil
+
+/-- the handler invocations are exactly those of the request values that pass every stage -/
+theorem log_eq (cfg : Config) (env : Env) (tbl : Table) (inp : Input) (es : List Json)
+    (h : inp.entries cfg = some es) :
+    (handleInput cfg env tbl inp).log = es.filterMap (fun e => (stageOf env tbl e).call?) := by
+  rcases entries_cases h with hb | ⟨hb, j, hj, rfl⟩
+  · rw [handleInput_batch cfg env tbl inp es hb, filterMap_eq_flatMap_toList]
+    simp only [batchLog, batchEntries, List.flatMap_map]
+    congr 1
+    funext e
+    rw [handleEntry_eq, entrySpec_log]
+  · rw [handleInput_single cfg env tbl inp j hj, handleEntry_eq, entrySpec_log]
+    cases hcall : (stageOf env tbl j).call? <;> simp [hcall]
+
+theorem forall₂_mem_right {α β : Type} {R : α → β → Prop} {l1 : List α} {l2 : List β}
+    (h : Forall₂ R l1 l2) : ∀ b ∈ l2, ∃ a ∈ l1, R a b := by
+  induction h with
+  | nil => intro b hb; cases hb
+  | cons hab _ ih =>
+    intro b hb
+    cases hb with
+    | head => exact ⟨_, List.mem_cons_self, hab⟩
+    | tail _ hb' =>
+      obtain ⟨a, ha, hr⟩ := ih b hb'
+      exact ⟨a, List.mem_cons_of_mem _ ha, hr⟩
+
+theorem forall₂_nil_left {α β : Type} {R : α → β → Prop} {l2 : List β} (h : Forall₂ R [] l2) : l2 = [] := by
+  cases h; rfl
+
+theorem forall₂_nil_right {α β : Type} {R : α → β → Prop} {l1 : List α} (h : Forall₂ R l1 []) : l1 = [] := by
+  cases h; rfl
+
+/-- the body is the response list put on the wire -/
+theorem output_assemble (cfg : Config) (env : Env) (tbl : Table) (inp : Input) (es : List Json)
+    (h : inp.entries cfg = some es) :
+    (handleInput cfg env tbl inp).body =
+      assemble (inp.batch? cfg).isSome ((handleInput cfg env tbl inp).responses (inp.batch? cfg).isSome) := by
+  rcases entries_cases h with hb | ⟨hb, j, hj, rfl⟩
+  · rw [handleInput_batch cfg env tbl inp es hb]
+    simp only [hb, Option.isSome_some, assemble, if_true, Output.responses]
+    cases hr : batchResponses cfg env tbl es with
+    | nil => simp
+    | cons a l => simp
+  · rw [handleInput_single cfg env tbl inp j hj]
+    simp only [hb, Option.isSome_none, assemble, Output.responses]
+    cases (handleEntry cfg env tbl InvalidJSON j).1 <;> simp
+
+theorem decodeFailCode_cases (cfg : Config) (inp : Input) :
+    inp.decodeFailCode cfg = -32700 ∨ inp.decodeFailCode cfg = -32600 := by
+  unfold Input.decodeFailCode
+  split
+  · exact Or.inr rfl
+  · exact Or.inl rfl
+
+theorem answers_isResponse {cfg : Config} {env : Env} {tbl : Table} {c : Int} {e r : Json}
+    (hc : c = -32700 ∨ c = -32600) (hok : ResultsOk cfg env) (h : Answers cfg env tbl c e r) :
+    IsResponse (stageOf env tbl e).id r := by
+  obtain ⟨resp, hs, rfl⟩ := h
+  exact entrySpec_wellformed cfg env c _ resp hc hok hs
+
+theorem wellformed (cfg : Config) (env : Env) (tbl : Table) (inp : Input) (hok : ResultsOk cfg env) :
+    WellFormedBody (inp.batch? cfg).isSome (handleInput cfg env tbl inp).body := by
+  cases he : inp.entries cfg with
+  | none =>
+    obtain ⟨code, j, _, hout, herr⟩ := handleInput_refused cfg env tbl inp he
+    obtain ⟨hb, _⟩ := entries_none he
+    rw [hout, hb]
+    simp only [WellFormedBody, Option.isSome_none, Bool.false_eq_true, if_false]
+    exact ⟨.null, herr.isResponse⟩
+  | some es =>
+    have hf := responses_forall₂ cfg env tbl inp es he
+    have ha := output_assemble cfg env tbl inp es he
+    have hall : ∀ r ∈ (handleInput cfg env tbl inp).responses (inp.batch? cfg).isSome, ∃ id, IsResponse id r := by
+      intro r hr
+      obtain ⟨e, _, hans⟩ := forall₂_mem_right hf r hr
+      exact ⟨_, answers_isResponse (decodeFailCode_cases cfg inp) hok hans⟩
+    rw [ha]
+    generalize (handleInput cfg env tbl inp).responses (inp.batch? cfg).isSome = rs at hall
+    cases hB : (inp.batch? cfg).isSome with
+    | true =>
+      cases rs with
+      | nil => simp [assemble, WellFormedBody]
+      | cons a l =>
+        simp only [assemble, if_true, List.isEmpty_cons, Bool.false_eq_true, if_false, WellFormedBody]
+        exact ⟨a :: l, by simp, rfl, hall⟩
+    | false =>
+      cases rs with
+      | nil => simp [assemble, WellFormedBody]
+      | cons a l =>
+        simp only [assemble, Bool.false_eq_true, if_false, List.head?_cons, WellFormedBody]
+        exact hall a List.mem_cons_self
+
+theorem silent_iff (cfg : Config) (env : Env) (tbl : Table) (inp : Input) :
+    (handleInput cfg env tbl inp).body = none ↔
+      ∃ es, inp.entries cfg = some es ∧ ∀ e ∈ es, (stageOf env tbl e).noReply cfg = true := by
+  cases he : inp.entries cfg with
+  | none =>
+    obtain ⟨code, j, _, hout, _⟩ := handleInput_refused cfg env tbl inp he
+    rw [hout]; simp
+  | some es =>
+    have hf := responses_forall₂ cfg env tbl inp es he
+    have ha := output_assemble cfg env tbl inp es he
+    constructor
+    · intro hnone
+      refine ⟨es, rfl, ?_⟩
+      have hrs : (handleInput cfg env tbl inp).responses (inp.batch? cfg).isSome = [] := by
+        simp [Output.responses, hnone]
+      rw [hrs] at hf
+      have := forall₂_nil_right hf
+      intro e hemem
+      have hnot : e ∉ es.filter (fun e => !(stageOf env tbl e).noReply cfg) := by rw [this]; simp
+      simp only [List.mem_filter, hemem, true_and, Bool.not_eq_true', Bool.not_eq_false] at hnot
+      exact hnot
+    · rintro ⟨es', hes', hall⟩
+      simp at hes'; subst hes'
+      have hfil : es.filter (fun e => !(stageOf env tbl e).noReply cfg) = [] := by
+        simp only [List.filter_eq_nil_iff]
+        intro e he'
+        simp [hall e he']
+      rw [hfil] at hf
+      rw [ha, forall₂_nil_left hf]
+      cases (inp.batch? cfg).isSome <;> simp [assemble]
+
+theorem answersRequest_of_answers {cfg : Config} {env : Env} {tbl : Table} {c : Int} {e r : Json}
+    (hc : c = -32700 ∨ c = -32600) (hok : ResultsOk cfg env) (h : Answers cfg env tbl c e r) :
+    AnswersRequest cfg env tbl c e r := by
+  refine ⟨answers_isResponse hc hok h, ?_, ?_⟩
+  · intro code hcode
+    obtain ⟨resp, hs, rfl⟩ := h
+    exact entrySpec_code cfg env c _ resp code hc hcode hs
+  · intro req m args id hst hid
+    obtain ⟨resp, hs, rfl⟩ := h
+    rw [hst] at hs
+    simp [entrySpec, hid] at hs
+    rw [← hs]
+
+/-! ### argument binding -/
+
+theorem mapGet_head {k : String} {v : Json} {rest : List (String × Json)}
+    (h : k ∉ rest.map (·.1)) : mapGet ((k, v) :: rest) k = some v := by
+  unfold mapGet
+  rw [List.reverse_cons, List.find?_append]
+  have : rest.reverse.find? (fun kv => decide (kv.1 = k)) = none := by
+    rw [List.find?_eq_none]
+    intro x hx
+    have hx' : x ∈ rest := List.mem_reverse.mp hx
+    simp only [decide_eq_true_eq]
+    intro hk
+    exact h (List.mem_map.mpr ⟨x, hx', hk⟩)
+  simp [this]
+
+theorem mapGet_nil (k : String) : mapGet [] k = none := by simp [mapGet]
+
+theorem mapDelete_head {k : String} {v : Json} {rest : List (String × Json)}
+    (h : k ∉ rest.map (·.1)) : mapDelete ((k, v) :: rest) k = rest := by
+  unfold mapDelete
+  simp only [List.filter_cons, ne_eq, not_true_eq_false, decide_false, Bool.false_eq_true, if_false]
+  rw [List.filter_eq_self]
+  intro x hx
+  simp only [decide_eq_true_eq]
+  intro hk
+  exact h (List.mem_map.mpr ⟨x, hx, hk⟩)
+
+theorem keys_zip_subset {names : List String} {vs : List Json} {k : String}
+    (h : k ∉ names) : k ∉ (names.zip vs).map (·.1) := by
+  intro hk
+  obtain ⟨x, hx, rfl⟩ := List.mem_map.mp hk
+  exact h (List.of_mem_zip (a := x.1) (b := x.2) hx).1
+
+/-- named binding of `name_i := v_i` for the first parameters equals positional binding -/
+theorem bindNamed_zip (env : Env) (ps : List Param) (vs : List Json)
+    (hnd : (ps.map (·.name)).Nodup) (hlen : vs.length ≤ ps.length)
+    (hopt : ∀ q ∈ ps.drop vs.length, q.optional = true) :
+    bindNamed env ps ((ps.map (·.name)).zip vs) = (bindPositional env ps vs).map (fun args => (args, [])) := by
+  induction ps generalizing vs with
+  | nil =>
+    cases vs with
+    | nil => rfl
+    | cons v vs => simp at hlen
+  | cons p ps ih =>
+    have hnd' : (ps.map (·.name)).Nodup := (List.nodup_cons.mp hnd).2
+    have hp : p.name ∉ ps.map (·.name) := (List.nodup_cons.mp hnd).1
+    cases vs with
+    | nil =>
+      have hpo : p.optional = true := hopt p (by simp)
+      have ih' := ih [] hnd' (by simp) (fun q hq => hopt q (by simp at hq ⊢; exact Or.inr hq))
+      simp only [List.zip_nil_right] at ih' ⊢
+      simp only [bindNamed, mapGet_nil, hpo, if_true, bindPositional, ih']
+      cases bindPositional env ps [] <;> rfl
+    | cons v vs =>
+      have hk : p.name ∉ ((ps.map (·.name)).zip vs).map (·.1) := keys_zip_subset hp
+      have ih' := ih vs hnd' (by simpa using hlen) (fun q hq => hopt q (by simpa using hq))
+      simp only [List.map_cons, List.zip_cons_cons, bindNamed, mapGet_head hk, mapDelete_head hk, bindPositional]
+      cases env.decode p.ty v with
+      | none => rfl
+      | some a =>
+        simp only [ih']
+        cases bindPositional env ps vs <;> rfl
+
+theorem required_zero_all_optional (ps : List Param)
+    (h : (ps.filter (fun p => !p.optional)).length = 0) : ∀ q ∈ ps, q.optional = true := by
+  intro q hq
+  have hnil : ps.filter (fun p => !p.optional) = [] := List.eq_nil_of_length_eq_zero h
+  rw [List.filter_eq_nil_iff] at hnil
+  have := hnil q hq
+  simpa using this
+
+/-- with an optional tail, the parameters beyond the required ones are all optional -/
+theorem drop_optional (ps : List Param) (n : Nat) (htail : OptionalTail ps)
+    (hreq : (ps.filter (fun p => !p.optional)).length ≤ n) : ∀ q ∈ ps.drop n, q.optional = true := by
+  induction ps generalizing n with
+  | nil => intro q hq; simp at hq
+  | cons p ps ih =>
+    cases n with
+    | zero =>
+      intro q hq
+      exact required_zero_all_optional (p :: ps) (Nat.le_zero.mp hreq) q (by simpa using hq)
+    | succ k =>
+      intro q hq
+      simp only [List.drop_succ_cons] at hq
+      cases hpo : p.optional with
+      | true => exact htail.1 hpo q (List.mem_of_mem_drop hq)
+      | false =>
+        apply ih k htail.2 _ q hq
+        simp only [List.filter_cons, hpo, Bool.not_false, if_true, List.length_cons] at hreq
+        omega
+
+theorem positional_named (env : Env) (m : Method) (vs : List Json)
+    (hnd : (m.params.map (·.name)).Nodup) (htail : OptionalTail m.params)
+    (hmin : requiredParamCount m ≤ vs.length) (hmax : vs.length ≤ m.params.length) :
+    buildArguments env (some (.arr vs)) m =
+      buildArguments env (some (.obj ((m.params.map (·.name)).zip vs))) m := by
+  cases vs with
+  | nil => simp [buildArguments, isNilOrEmpty]
+  | cons v vs =>
+    have hopt := drop_optional m.params (v :: vs).length htail hmin
+    have hz := bindNamed_zip env m.params (v :: vs) hnd hmax hopt
+    cases hps : m.params with
+    | nil => simp [hps] at hmax
+    | cons p ps =>
+      rw [hps] at hz
+      have hcount : ¬ ((v :: vs).length < requiredParamCount m ∨ (v :: vs).length > m.params.length) := by
+        omega
+      simp only [buildArguments, isNilOrEmpty, hps, List.map_cons, List.zip_cons_cons, Bool.false_eq_true, if_false]
+      rw [hps] at hcount
+      simp only [hcount, if_false]
+      simp only [List.map_cons, List.zip_cons_cons] at hz
+      rw [hz]
+      cases bindPositional env (p :: ps) (v :: vs) with
+      | error e => rfl
+      | ok args => simp [Except.map, mapKeys]
+
+/-- positional binding: the supplied values are decoded in order, the rest are zero values -/
+theorem bindPositional_spec (env : Env) (ps : List Param) (vs : List Json) (args : List Json)
+    (hlen : vs.length ≤ ps.length) (h : bindPositional env ps vs = .ok args) :
+    args.length = ps.length ∧
+    Forall₂ (fun (pv : Param × Json) a => env.decode pv.1.ty pv.2 = some a) (ps.zip vs) (args.take vs.length) ∧
+    args.drop vs.length = (ps.drop vs.length).map (fun p => env.zero p.ty) := by
+  induction ps generalizing vs args with
+  | nil =>
+    cases vs with
+    | nil => simp [bindPositional] at h; subst h; exact ⟨rfl, Forall₂.nil, rfl⟩
+    | cons v vs => simp at hlen
+  | cons p ps ih =>
+    cases vs with
+    | nil =>
+      simp only [bindPositional] at h
+      cases hr : bindPositional env ps [] with
+      | error e => simp [hr, bind, Except.bind] at h
+      | ok rest =>
+        simp [hr, bind, Except.bind, pure, Except.pure] at h
+        subst h
+        obtain ⟨h1, _, h3⟩ := ih [] rest (by simp) hr
+        refine ⟨by simp [h1], by simpa using Forall₂.nil, ?_⟩
+        simpa using h3
+    | cons v vs =>
+      simp only [bindPositional] at h
+      cases hd : env.decode p.ty v with
+      | none => simp [hd] at h
+      | some a =>
+        simp only [hd] at h
+        cases hr : bindPositional env ps vs with
+        | error e => simp [hr, bind, Except.bind] at h
+        | ok rest =>
+          simp [hr, bind, Except.bind, pure, Except.pure] at h
+          subst h
+          obtain ⟨h1, h2, h3⟩ := ih vs rest (by simpa using hlen) hr
+          refine ⟨by simp [h1], ?_, by simpa using h3⟩
+          simp only [List.zip_cons_cons, List.length_cons, List.take_succ_cons]
+          exact Forall₂.cons hd h2
+
+/-! ### validator arithmetic -/
+
+theorem bitLen_le_iff (n b : Nat) : bitLen n ≤ b ↔ n < 2 ^ b := by
+  induction b generalizing n with
+  | zero =>
+    cases n with
+    | zero => simp [bitLen]
+    | succ k => rw [bitLen]; simp
+  | succ b ih =>
+    cases n with
+    | zero => rw [bitLen]; simp [Nat.two_pow_pos]
+    | succ k =>
+      rw [bitLen]
+      have := ih ((k + 1) / 2)
+      rw [Nat.pow_succ]
+      constructor
+      · intro h
+        have h' : bitLen ((k + 1) / 2) ≤ b := by omega
+        have := this.mp h'
+        omega
+      · intro h
+        have h' : (k + 1) / 2 < 2 ^ b := by omega
+        have := this.mpr h'
+        omega
+
+/-! ### isBatch -/
+
+theorem isBatch_iff (cfg : Config) (inp : Input) :
+    isBatch cfg inp = true ↔
+      inp.firstIsBracket = true ∧ ∀ n, cfg.peekLimit = some n → inp.leadWs < n := by
+  unfold isBatch
+  cases cfg.peekLimit with
+  | none => simp
+  | some n => simp
+
 end Juno.C11
